@@ -397,9 +397,9 @@ fn run_claim(
             let secure = verdict == Proof::Secure;
             l.outcome(&format!("verdict:{}:{}:{}", claim.tag(), format!("{verdict:?}").to_lowercase(), if tr.is_ok() { "true-claim" } else { "false-claim" }));
             if tr.is_err() || (proves != Proof3::No && mask.count_ones() >= 2) {
-                // counted per (world, query, claim, soa), not per subset (keeps the exact count far
-                // below vcore's 40 M cap, so it is the same number on every run)
-                l.nontrivial(fnv_str(&format!("{case_id}|{soa:?}")));
+                // counted per (world, qname, qtype), not per claim/soa/subset (keeps the exact count
+                // far below vcore's 40 M cap, so it is the same number on every run)
+                l.nontrivial(fnv_str(&format!("{}|{qname_s}|{qtype}", world.text)));
             }
             if proves == Proof3::Yes && !secure && soa.is_some() {
                 l.outcome(&format!("obs:valid-proof-not-accepted:{}", claim.tag()));
@@ -885,7 +885,7 @@ fn main() {
          published wildcard RRset} x soa {apex, absent} x EVERY non-empty subset of the zone's NSEC3 records (>7 records: subsets of size <=3) -> verify_nsec3; \
          oracle: Secure => claim true in the zone (vref::denial::truth) and the subset is the RFC 5155 section 8 proof with opt-out only for DS (nsec3_proves). \
          Plus parameter mixtures / wrong-zone owners (never Secure), iterations 0..3 x limits {(1,2),(0,0),(2,2)}, completeness of every negative/wildcard DO=1 \
-         server answer through the real DnssecDnsHandle. Non-trivial = distinct (world, query, claim, soa) with a false claim or with a valid proof of >= 2 records among the enumerated subsets, plus each completeness case.",
+         server answer through the real DnssecDnsHandle. Non-trivial = distinct (world, qname, qtype) for which some enumerated (claim, soa, subset) has a false claim or a valid proof of >= 2 records, plus each completeness case.",
     );
     ctx.assume("vref::zone + vref::denial (self-tested on every run against RFC 4592, RFC 4034 6.1, RFC 4035 app. A/B, RFC 5155 app. A hash vectors and app. B)");
     ctx.assume("the attacker only has genuine signed records of the zone (forged signatures are C06's business); SHA-1 and Ed25519 via ring; no hash collisions among the <= 60 names involved");
